@@ -882,7 +882,7 @@ class NodeFor:
                     else:
                         for i in range(len(self.identifiers)):
                             environment.remove(self.identifiers[i])
-            except CklRuntimeError:
+            except (CklRuntimeError, CklSyntaxError):
                 raise
             except Exception:
                 raise CklRuntimeError(
